@@ -547,3 +547,10 @@ func wfImpl(line string) (out string) {
 	}
 	return fmt.Sprintf("send=%s packets=%d", r, pk)
 }
+
+// rule addenda (rounds 9-12): what the evidence says about the coverage of a run
+func init() {
+	if p := registry["C14"]; p != nil {
+		p.Rule += " rd E: the transport reports its end together with the last bytes (io.Reader allows n > 0 with io.EOF); wf … full: the failing write reports the full count with its error; wf … once: only that write fails, later ones would succeed."
+	}
+}
